@@ -214,6 +214,16 @@ func c20Exec(op string) string {
 	if exm == nil {
 		m := map[string]interface{}(mx)
 		chk("x2jw.PathsForKey", sortedStrs(x2jw.PathsForKey(m, key)) == sortedStrs(mx.PathsForKey(key)))
+		{
+			// the same on a Map that references some of its sub-documents from several places
+			sm := shareSome(m)
+			chk("x2jw.PathsForKey(shared sub-maps)", sortedStrs(x2jw.PathsForKey(sm, key)) == sortedStrs(mxj.Map(sm).PathsForKey(key)))
+			chk("x2jw.PathForKeyShortest(shared sub-maps)", segCount(x2jw.PathForKeyShortest(sm, key)) == segCount(mxj.Map(sm).PathForKeyShortest(key)))
+			if !strings.HasSuffix(path, ".") && !strings.Contains(path, "[") {
+				v2, _ := mxj.Map(sm).ValuesForPath(path)
+				chk("x2jw.ValuesFromKeyPath(shared sub-maps)", mval(x2jw.ValuesFromKeyPath(sm, path, true)) == mval(v2))
+			}
+		}
 		ps, _ := x2jw.PathsForTag(string(doc), key)
 		chk("x2jw.PathsForTag", sortedStrs(ps) == sortedStrs(mx.PathsForKey(key)))
 		ps, _ = x2jw.BytePathsForTag(doc, key)
